@@ -143,6 +143,14 @@ structure Obs where
   rpsout : Int := 0
   /-- tokens of the countable parts of the RPS profile (`rpsFloor`, computed from the profile text) -/
   rpsfloor : Nat := 0
+  /-- round 6: for every RPS schedule object that ended (order of `rpsspans`): tokens handed out by completed `Next` calls plus
+  `Next` calls still inside the schedule at its FIRST "finished" answer — an upper bound of what it had handed out by then -/
+  rpsatfin : List Int := []
+  /-- round 6: `discard_overflow` of the pool (input) and, for every discarded shot (`Aggregator.Report` of the discard sample by the
+  instance goroutine), the instant of the report minus the time of the token that goroutine had drawn last: an upper bound of
+  the lateness `Waiter.Wait` recorded for it (−1: a report without a token) -/
+  discardOn : Bool := false
+  discards : List Int := []
 deriving Repr
 
 /-- margin around a cut inside which "was this token still started?" is not decided -/
@@ -262,13 +270,21 @@ def judgeFired (perinst : Bool) (o : Obs) : String :=
   match o.rpsspans.find? (fun sp => sp.2 - sp.1 < o.rpsmin) with
   | some sp => s!"fail:fired:an RPS profile reported its end {sp.2 - sp.1} ns after its first token was asked for, its parts up to the unlimited one last {o.rpsmin} ns"
   | none =>
+  -- round 6: … and AT THE MOMENT it first says "finished" (which is what cancels instance start with a shared profile, and ends
+  -- the instance with its own) every token has been handed out — exact, whatever the interleaving of its callers: a token handed
+  -- out by then belongs to a completed `Next` call or to one that is still inside the schedule
+  match o.rpsatfin.find? (fun g => g ≥ 0 && (if o.rpstot ≥ 0 then g < o.rpstot else g < o.rpsfloor)) with
+  | some g => s!"fail:fired:an RPS profile reported its end when at most {g} of its {if o.rpstot ≥ 0 then s!"{o.rpstot}" else s!"at least {o.rpsfloor}"} tokens had been handed out (tokens were still to come: instance start was cut short / an instance ended although its RPS profile was not exhausted)"
+  | none =>
   -- "RPS profile exhausted" is said only of a profile that has handed out every token (exact, whatever else happened: a
   -- schedule says "finished" — `Left() == 0` or `Next()` without token — only after its last token was taken)
   match o.rpsgiven.find? (fun g => if o.rpstot ≥ 0 then g != o.rpstot else g < o.rpsfloor) with
   | some g => s!"fail:fired:an RPS profile reported its end after handing out {g} tokens, it has {if o.rpstot ≥ 0 then s!"{o.rpstot}" else s!"at least {o.rpsfloor} (its countable parts)"}"
   | none =>
   if stopped || o.err != "nil" || o.running != 0 || o.exits.length != o.k || o.exits.any (·.2.2 == "?") then "ok" else
-  let total := (o.shots.map (·.2)).foldl (· + ·) 0
+  -- a discarded shot (discard_overflow; each one is justified separately by `judgeDiscard`) consumes its token and its ammo like a shot
+  let ndisc := o.discards.length
+  let total := (o.shots.map (·.2)).foldl (· + ·) 0 + ndisc
   let sched := o.exits.filter (·.2.2 == "sched")
   let ammoX := o.exits.filter (·.2.2 == "ammo")
   if o.ammo > 0 && total > o.ammo then s!"fail:fired:{total} shots with {o.ammo} ammo" else
@@ -284,6 +300,13 @@ def judgeFired (perinst : Bool) (o : Obs) : String :=
       s!"fail:fired:instances finished as 'RPS profile exhausted' after {total} shots in all, the countable parts of the shared profile alone have {o.rpsfloor} tokens"
     else "ok") else
   let r := o.rpstot.toNat
+  if perinst && ndisc > 0 then
+    -- discards are not attributed to instances: all instances together, when every one of them fired its profile to the end
+    (if sched.length == o.k && total != r * o.k then
+      s!"fail:fired:every instance finished as 'RPS profile exhausted' after {total} shots and discarded shots in all, {o.k} profiles of {r} tokens each"
+    else match o.shots.find? (·.2 > r) with
+      | some p => s!"fail:fired:instance {p.1} fired {p.2} shots, its RPS profile has {r} tokens"
+      | none => "ok") else
   if perinst then
     match sched.find? (fun x => shotsOf o x.1 != r) with
     | some x => s!"fail:fired:instance {x.1} finished as 'RPS profile exhausted' after {shotsOf o x.1} shots, its profile has {r} tokens (shots {o.shots})"
@@ -294,6 +317,17 @@ def judgeFired (perinst : Bool) (o : Obs) : String :=
     s!"fail:fired:instances finished as 'RPS profile exhausted' after {total} shots in all, the shared profile has {r} tokens (shots {o.shots})"
   else if total > r then s!"fail:fired:{total} shots, the shared RPS profile has {r} tokens"
   else "ok"
+
+/-- round 6 — "an instance, once started, KEEPS FIRING …": a token is not fired (its shot is reported as discarded) only when the
+pool runs with `discard_overflow` and the token was at least `MaxOverdueDuration` (2 s) overdue; in particular a token that the
+instance waited for in time is fired whatever happened to the instance before (a hiccup of the target long ago).  Zero margin,
+one-sided: the lateness observed at the report is not smaller than the one `Wait` recorded. -/
+def judgeDiscard (o : Obs) : String :=
+  if !o.discardOn && !o.discards.isEmpty then
+    s!"fail:discarded:{o.discards.length} shots were reported as discarded instead of fired, discard_overflow is off"
+  else match o.discards.find? (· < Pandora.Model.C04.maxOverdue) with
+    | some l => s!"fail:discarded:an instance did not fire a token that was at most {l} ns late when it was reported as discarded (discard_overflow drops only tokens {Pandora.Model.C04.maxOverdue} ns or more overdue): the instance has stopped firing although its RPS profile, the ammo and the run are alive"
+    | none => "ok"
 
 def distinct : List Nat → Bool
   | [] => true
@@ -333,7 +367,9 @@ where
     if o.sul0.isSome && o.sul0 != some (o.total : Int) then s!"fail:left:a startup profile of {o.total} tokens answers Left() = {o.sul0.getD 0} before its first token was asked for" else
     match judgeExits o with
     | "ok" => (match judgeCtx o with
-      | "ok" => judgeFired perinst o
+      | "ok" => (match judgeDiscard o with
+        | "ok" => judgeFired perinst o
+        | v => v)
       | v => v)
     | v => v
   /-- every exit needs ITS cause, and none comes before the first possible cause -/
